@@ -19,7 +19,7 @@ from .terms import Lin, Term, c, is_c, is_top, top
 BUILTINS = {
     "int", "str", "len", "round", "float", "divmod", "sum", "map", "filter", "list", "dict", "set", "tuple",
     "isinstance", "hasattr", "type", "hash", "open", "bool", "bytes", "sorted", "min", "max", "abs", "any", "all",
-    "range", "print", "object", "super", "getattr", "repr", "enumerate", "zip", "frozenset", "bytearray", "hex",
+    "range", "print", "object", "super", "getattr", "repr", "enumerate", "zip", "frozenset", "bytearray", "hex", "slice",
     "ValueError", "KeyError", "RuntimeError", "IndexError", "TypeError", "Exception", "NotImplementedError",
     "OSError", "BaseException", "UnicodeDecodeError", "LookupError", "AttributeError", "OverflowError",
     "ConnectionError", "StopIteration", "AssertionError", "ArithmeticError", "ZeroDivisionError", "FileNotFoundError",
@@ -276,6 +276,13 @@ def call_ext(I: Any, name: str, args: List[Term], kwargs: Dict[str, Term], st: A
         ast.copy_location(lam, node)
         ast.fix_missing_locations(lam)
         return ("lambda", lam, None, ctx.fi, {})
+    if name == "builtins.slice" and 1 <= len(args) <= 3 and not kwargs:
+        a3 = [c(None)] * 3
+        if len(args) == 1:
+            a3[1] = args[0]
+        else:
+            a3[:len(args)] = args
+        return ("sliceobj", a3[0], a3[1], a3[2])
     if name in ("builtins.round",):
         return app("round", args, kwargs)
     if name == "builtins.hash":
@@ -302,6 +309,8 @@ def call_ext(I: Any, name: str, args: List[Term], kwargs: Dict[str, Term], st: A
             known = nm in ho.fields or (ho.cls is not None and (ho.cls.find_method(nm) or ho.cls.find_property(nm)))
             if known or len(args) == 2:
                 return I.getattr(obj, nm, st, ctx, node)
+            if not ho.symbolic:
+                return args[2]   # same decision as hasattr(): a concrete object without the attribute
             from .interp import Event, ite
             st.events.append(Event("readattr", f"{I.describe(obj, st)}.{nm}", (), (), where, ctx.fi.key if ctx.fi else "", pc_len=len(st.pc)))
             v = ("sym", f"{I.describe(obj, st)}.{nm}", "any")
@@ -602,7 +611,9 @@ def binop(I: Any, op: ast.operator, a: Term, b: Term, st: Any, ctx: Any, node: a
     sb = T.to_seq(b) if _textlike(b) else None
     if isinstance(op, ast.Add):
         if sa is not None and sb is not None:
-            return T.concat(sa, sb)
+            if is_c(a) and is_c(b) and type(a[1]) is type(b[1]):
+                return c(a[1] + b[1])
+            return merge_strftime(T.concat(sa, sb))
         if sa is not None or sb is not None:
             # text + opaque text term
             other = b if sa is not None else a
@@ -879,6 +890,9 @@ def format_value(I: Any, x: Term, spec: str, st: Any, ctx: Any, node: ast.AST) -
         if is_int_term(x):
             return ("seq", "s", (("fmt", "d", x),))
         return text_of(app("str", [x]))
+    tmf = tm_field_text(x, spec)
+    if tmf is not None:
+        return tmf
     # numeric presentation
     x = int_view(x)
     if is_c(x):
@@ -891,6 +905,51 @@ def format_value(I: Any, x: Term, spec: str, st: Any, ctx: Any, node: ast.AST) -
         st.may_raise("ValueError", c(True), where)
         return top("numeric format of text")
     return ("seq", "s", (("fmt", spec, x),))
+
+
+_TM_DIRECTIVE = {"tm_hour": "%H", "tm_min": "%M", "tm_sec": "%S", "tm_mday": "%d", "tm_mon": "%m"}
+
+
+def tm_field_text(x: Term, spec: str) -> Optional[Term]:
+    """f"{t.tm_hour:02d}" for a struct_time t is time.strftime("%H", t) (two zero-padded digits, 0..23/59/..)."""
+    if spec == "02d" and isinstance(x, tuple) and x and x[0] == "extmeth" and x[2] in _TM_DIRECTIVE:
+        X = x[1]
+        if isinstance(X, tuple) and X[:1] == ("app",) and X[1] in ("time.localtime", "time.gmtime", "time.strptime"):
+            return ("seq", "s", (("txt", ("app", "time.strftime", c(_TM_DIRECTIVE[x[2]]), X)),))
+    return None
+
+
+def merge_strftime(v: Term) -> Term:
+    """strftime(f1, t) ++ lit ++ strftime(f2, t) == strftime(f1 ++ lit ++ f2, t): one canonical (coarsest) form."""
+    if not T.is_seq(v) or v[1] != "s":
+        return v
+    atoms = list(v[2])
+
+    def sf(a: Any) -> Optional[Tuple[str, Term]]:
+        if a[0] == "txt" and isinstance(a[1], tuple) and a[1][:2] == ("app", "time.strftime") and len(a[1]) == 4 and is_c(a[1][2]) and isinstance(a[1][2][1], str):
+            return a[1][2][1], a[1][3]
+        return None
+
+    changed = True
+    while changed:
+        changed = False
+        for i in range(len(atoms)):
+            x = sf(atoms[i])
+            if x is None:
+                continue
+            j = i + 1
+            lit = ""
+            if j < len(atoms) and atoms[j][0] == "L":
+                lit = atoms[j][1]
+                j += 1
+            if j < len(atoms):
+                y = sf(atoms[j])
+                if y is not None and y[1] == x[1]:
+                    fmt = x[0] + lit.replace("%", "%%") + y[0]
+                    atoms[i:j + 1] = [("txt", ("app", "time.strftime", c(fmt), x[1]))]
+                    changed = True
+                    break
+    return ("seq", "s", tuple(atoms)) if len(atoms) != len(v[2]) else v
 
 
 def str_format(I: Any, tmpl: str, args: List[Term], kwargs: Dict[str, Term], st: Any, ctx: Any, node: ast.AST) -> Term:
@@ -945,7 +1004,7 @@ def str_format(I: Any, tmpl: str, args: List[Term], kwargs: Dict[str, Term], st:
         out = T.concat(out, format_value(I, val, spec, st, ctx, node))
         if is_top(out):
             return out
-    return out
+    return merge_strftime(out)
 
 
 def pad(s: Term, width: Term, fill: Term, side: str, I: Any = None, st: Any = None, ctx: Any = None, node: Any = None) -> Term:
